@@ -675,6 +675,12 @@ func ruleBump(c *Ctx) []Ob {
 	refill := capTest.Block().Succs[0]
 	p0, nb, nn := false, false, false
 	var szv ssa.Value
+	type rsite struct {
+		sz  ssa.Value
+		blk *ssa.BasicBlock
+	}
+	var rsites []rsite
+	a.condFacts()
 	for _, b := range m.Blocks {
 		if !(b == refill || refill.Dominates(b)) || !edgeDominates(capTest.Block(), 0, b) {
 			continue
@@ -683,6 +689,7 @@ func ruleBump(c *Ctx) []Ob {
 			if call, ok := ins.(*ssa.Call); ok && isRefillHelper(call.Call.StaticCallee()) && len(call.Call.Args) == 2 {
 				p0, nb, nn = true, true, true
 				szv = call.Call.Args[1]
+				rsites = append(rsites, rsite{szv, b})
 			}
 			st, ok := ins.(*ssa.Store)
 			if !ok {
@@ -719,6 +726,22 @@ func ruleBump(c *Ctx) []Ob {
 			}
 		}
 		okSz = hasDef && hasNeed
+	}
+	if !okSz && len(rsites) > 0 {
+		// several refill sites, each with its own size: what matters is that every fresh block can hold the request
+		// (size >= n + align - 1 where it is taken) and that the default size is among the choices
+		def, _ := c.constOf(pkgReflect, "defaultDecoderMemSize")
+		all, hasDef := true, false
+		for _, rs := range rsites {
+			if v, ok := constInt(rs.sz); ok && v == def {
+				hasDef = true
+			}
+			want := addF(a.lin(rs.sz), addF(addF(a.lin(n), a.lin(align), 1), konst(1), -1), -1)
+			if ok, _ := a.prove(want, rs.blk); !ok {
+				all = false
+			}
+		}
+		okSz = all && hasDef
 	}
 	s.check(p0 && nb && nn && okSz, "span.Malloc:refill", c.InstrPos(capTest), "refill: fresh block of max(default, n+align-1), p = 0", fmt.Sprintf("refill does not take a fresh block of max(default, n+align-1) and restart at 0 (p=0 %v, new block %v, n=sz %v, size choice %v)", p0, nb, nn, okSz))
 	// round-up and advance
